@@ -74,8 +74,7 @@ def consumed_paths(code: Code) -> set:
         if p.kind == 'slot' and isinstance(p.b, Tok):
             out.add(p.b.path)
         elif p.kind == 'slot' and isinstance(p.b, CellV) and p.b.tag.startswith('tok:'):
-            t = p.b.tag[4:]
-            out.add(tuple(int(x) for x in t.split('/') if x != ''))
+            out.add(_tag_path(p.b.tag))
         elif p.kind in ('raw', 'repr') and isinstance(p.a, GroupStr):
             out.add(p.a.path)
         elif p.kind == 'num':
@@ -89,7 +88,7 @@ def consumed_paths(code: Code) -> set:
 def _tag_path(tag: str):
     if not isinstance(tag, str) or not tag.startswith('tok:'):
         return None
-    return tuple(int(x) for x in tag[4:].split('/') if x != '')
+    return tuple(int(x) for x in tag[4:].split('#')[0].split('/') if x != '')
 
 
 class _PathCarrier:
@@ -231,3 +230,151 @@ def find_call_arg_atoms(sk: Skeleton, helper: str):
             if name == helper:
                 return s, call
     return None, None
+
+
+# ---------------------------------------------------------------------------------------------------
+# shared rules
+# ---------------------------------------------------------------------------------------------------
+def check_plumbing(run: Run, rule: str, src, em, rt, excel_functions: list):
+    """argument plumbing of the given Excel functions against the frozen, hand-confirmed reference"""
+    from ..plumbing import canonical, load_reference, helpers_in, keyword_names
+    ref = load_reference()
+    g = em.g
+    for fname in excel_functions:
+        comp = function_token_of(g, fname)
+        if comp is None:
+            run.bad(rule, f'{fname}', 'function-missing', f'no function token class starts with the keyword {fname}')
+            continue
+        if fname not in ref:
+            raise AnalysisError(rule, f'no frozen plumbing reference for {fname}')
+        r = ref[fname]
+        trs = [tr for (tr, tk) in em.function_pairs() if tk == comp.name]
+        if not trs:
+            run.bad(rule, fname, 'no-translator', f'{comp.name} is never handed to a translator')
+            continue
+        tr = trs[0]
+        loc = loc_of(src.cls(tr).module.path, src.cls(tr).node)
+        got = {}
+        for e in em.pairs[(tr, comp.name)]:
+            if e.outcome.kind != 'return' or em.unreachable(e):
+                continue
+            text, problems = canonical(em, e, rt)
+            got.setdefault(f'production[{e.production}]', [])
+            if text not in got[f'production[{e.production}]']:
+                got[f'production[{e.production}]'].append(text)
+        # stale reference (helper or parameter renamed): not a violation, the reference has to be re-confirmed
+        ref_helpers = set()
+        ref_kws = {}
+        for fs in r['forms'].values():
+            for f in fs:
+                ref_helpers |= helpers_in(f)
+                for h, ks in keyword_names(f).items():
+                    ref_kws.setdefault(h, set()).update(ks)
+        for h in ref_helpers:
+            if h not in rt.template.members:
+                raise AnalysisError(rule, f'{fname}: the frozen reference names the helper {h}, which no longer exists in the class '
+                                          f'template (renamed?): re-confirm and re-freeze sa/reference/plumbing.json')
+            fn = rt.template.members[h]
+            params = {a.arg for a in fn.args.posonlyargs + fn.args.args + fn.args.kwonlyargs}
+            if not ref_kws.get(h, set()) <= params:
+                raise AnalysisError(rule, f'{fname}: parameters {sorted(ref_kws[h] - params)} of {h} named by the frozen reference no '
+                                          f'longer exist (renamed?): re-confirm and re-freeze sa/reference/plumbing.json')
+        for prod in sorted(set(got) | set(r['forms'])):
+            construct = f'{fname}/{prod}'
+            a, b = got.get(prod), r['forms'].get(prod)
+            if a is None:
+                run.bad(rule, construct, 'form-missing',
+                        f'{fname} {prod} no longer produces code (reference: {b[0][:120]})', loc=loc)
+            elif b is None:
+                run.bad(rule, construct, 'form-unconfirmed',
+                        f'{fname} has a new form {prod}: `{a[0][:160]}` that was never confirmed against Excel\'s signature', loc=loc)
+            elif set(a) == set(b):
+                run.ok(rule, construct, a[0][:160], loc=loc)
+            else:
+                new = [x for x in a if x not in b]
+                gone = [x for x in b if x not in a]
+                run.bad(rule, construct, 'plumbing',
+                        f'{fname} {prod} now prints `{(new or a)[0][:200]}`; the confirmed form ({r.get("confirmed", "")[:120]}) is '
+                        f'`{(gone or b)[0][:200]}`', loc=loc,
+                        facts={'now': new[:5], 'confirmed': gone[:5]})
+
+
+def check_atomic(run: Run, rule: str, src, em, excel_functions: list):
+    """the emitted code of a function keeps its meaning as an operand of any operator"""
+    from ..emission import is_atomic
+    g = em.g
+    for fname in excel_functions:
+        comp = function_token_of(g, fname)
+        if comp is None:
+            continue
+        for (tr, tk) in em.function_pairs():
+            if tk != comp.name:
+                continue
+            seen = set()
+            for e in em.pairs[(tr, tk)]:
+                if e.outcome.kind != 'return' or em.unreachable(e):
+                    continue
+                sk = skeleton_of(em, e)
+                if sk is None or sk.tree is None:
+                    continue
+                key = (e.production, _shape(sk.text))
+                if key in seen:
+                    continue
+                seen.add(key)
+                text = sk.text.strip()
+                atomic = is_atomic(sk.tree) or _fully_parenthesised(text)
+                run.check(atomic, rule, f'{fname}/production[{e.production}]:{_shape(text)[:50]}', 'not-atomic',
+                          f'{fname} is printed as `{_shape(text)[:120]}`, which is not atomic for Python precedence: next to an '
+                          f'operator (IF(...)*2, 1+IF(...)) the operator attaches to a part of it',
+                          fact=f'atomic: {_shape(text)[:60]}', loc=loc_of(src.cls(tr).module.path, src.cls(tr).node))
+
+
+def _shape(text: str) -> str:
+    import re as _re
+    return _re.sub(r'__[A-Z][A-Za-z0-9]*__', '_', text)
+
+
+def _fully_parenthesised(text: str) -> bool:
+    if not (text.startswith('(') and text.endswith(')')):
+        return False
+    depth = 0
+    instr = None
+    for i, ch in enumerate(text):
+        if instr:
+            if ch == instr:
+                instr = None
+            continue
+        if ch in '"\'':
+            instr = ch
+        elif ch == '(':
+            depth += 1
+        elif ch == ')':
+            depth -= 1
+            if depth == 0 and i != len(text) - 1:
+                return False
+    return depth == 0
+
+
+def borrow(run: Run, as_rule: str, fn, *args, only_rules=None):
+    """run a rule function of another property in a scratch Run and re-label its obligations/findings as `as_rule`"""
+    sub = Run('tmp', run.tier, run.seed, quiet=True)
+    try:
+        fn(sub, *args)
+    except AnalysisError as e:
+        run.error(as_rule, f'{e.rule}: {e.reason}')
+        return sub
+    except Exception as e:
+        run.error(as_rule, f'internal error in shared rule: {type(e).__name__}: {e}')
+        return sub
+    for o in sub.obligations:
+        if only_rules and o['rule'] not in only_rules:
+            continue
+        if o['verdict'] == 'holds':
+            run.ok(as_rule, o['construct'], o['fact'], nontrivial=o['nontrivial'], loc=o['loc'])
+    for f in sub.findings:
+        if only_rules and f['rule'] not in only_rules:
+            continue
+        run.bad(as_rule, f['construct'], f['sub'], f['message'], loc=f['loc'], facts=f['facts'])
+    for e in sub.errors:
+        run.errors.append(f'{as_rule} <- {e}')
+    return sub
